@@ -23,6 +23,9 @@ def main():
     py, xs, lits = seeds.all_seeds()
     oracles_ = ("c01",)
     pycommon.b_full(chk, oracles_, 2 if chk.quick else 3, python_only=True, lift=True)
+    ref = seeds.grammar_programs("reference", 4 if chk.quick else 10, chk.seed)
+    chk.extra["reference_grammar_programs"] = len(ref)
+    pycommon.k0_texts(chk, oracles_, ref, "reference-grammar derivations k=0", wall=150 if chk.quick else 900)
     ep = seeds.expr_product()
     pycommon.k0_texts(chk, oracles_, ep, "expression kinds x positions k=0", wall=150 if chk.quick else 900)
     pycommon.indent_skeleton(chk, oracles_, 4 if chk.quick else 6, pycommon.CORE_OPTS, wall=120 if chk.quick else 1500)
